@@ -331,6 +331,39 @@ def _scribble(obj, seen=None):
     return n
 
 
+def yaml_keys_wellformed(rep):
+    """Y: no entry of a parameter file is silently ignored because its key merely LOOKS like a date:
+    the loader keeps only keys that YAML parsed as dates (`2025-4-01` is a string and would be dropped).
+    Exhaustive over every mapping of every parameter file."""
+    import re
+
+    import yaml
+
+    datelike = re.compile(r"^\s*\d{4}\s*[-/.]\s*\d{1,2}\s*[-/.]\s*\d{1,2}\s*$")
+    bad = []
+    n = 0
+
+    def walk(node, path):
+        nonlocal n
+        if isinstance(node, dict):
+            for k, v in node.items():
+                n += 1
+                if isinstance(k, str) and datelike.match(k):
+                    bad.append(f"{path}: key {k!r} is a string, not a date")
+                elif isinstance(k, datetime.datetime):
+                    bad.append(f"{path}: key {k!r} is a timestamp, not a date")
+                walk(v, f"{path}[{k!r}]")
+        elif isinstance(node, list):
+            for i, v in enumerate(node):
+                walk(v, f"{path}[{i}]")
+
+    for f in sorted(PARAM_DIR.glob("*.yaml")):
+        walk(yaml.load(f.read_text(encoding="utf-8"), Loader=yaml.CLoader), f.name)
+    rep.ob(f"Y every date-like key of the parameter files is a date ({n} keys): no entry is dropped by the loader's isinstance(key, date) filter", "refuted" if bad else "discharged", "exhaustive-run", 0, "src/_gettsim/parameters/*.yaml", "yaml", "; ".join(bad[:3]))
+    for b in bad[:5]:
+        rep.violation(f"yaml-key:{b[:80]}", f"{b}: the entry is ignored by _load_parameter_group_from_yaml, the previous entry stays in force from that day on", {"obligation": "Y", "what": b}, True)
+
+
 def history_independence(rep, tier):
     """H: the environment is a function of the date alone -- after every mutable object reachable from
     previously returned environments (same day, next day, a year earlier) has been overwritten in
@@ -397,6 +430,7 @@ def run(tier="quick", seed=0, jobs=16):
                        ASSUMPTIONS["A1"] + " (only in the E1 obligations; dates as integers)"]
     rep.trusted = ["yaml.CLoader", "copy.deepcopy", "CPython datetime", "z3 5.1.0", "E1 encoder"]
     small_pieces(rep)
+    yaml_keys_wellformed(rep)
     history_independence(rep, tier)
     last = venv.last_parameter_date()
     end = last.replace(year=last.year + 1)
